@@ -184,6 +184,38 @@ class EmptyCollections(Case):
         yield dict(kind="fc")
 
 
+class DuplicateChildren(Case):
+    """Duplicate children (two members with the same content, hence the same identifier) are refused by both collection
+    constructors with the documented exception; members that differ in any identifying field are accepted and BOTH are
+    reachable through guid_map.  Complete finite domain (kind x which field differs)."""
+    props = ("C19", "C20")
+    name = "GeneInterval / FeatureIntervalCollection refuse duplicate children (same identifier), keep distinct ones"
+    func = GENE + ".__init__"
+    module = "gene.collections"
+    call = "(lambda g: (len(g.guid_map), len(g.children_guids)))((GeneInterval if kind == 'gene' else FeatureIntervalCollection)([a, b]))"
+    raises = {"DuplicateTranscriptError": lambda i: i.kind == "gene" and i.differ == "nothing",
+              "DuplicateFeatureError": lambda i: i.kind == "fc" and i.differ == "nothing"}
+    ensures = {"both-members-kept": lambda i, r: And(r[0] == 2, r[1] == 2)}
+
+    def inputs(self, S):
+        kind, differ = S.const("kind"), S.const("differ")
+        plus = S.enum_const(STRAND, "PLUS")
+        e2 = 9 if differ == "coordinates" else 8
+        id2 = "m2" if differ == "id" else "m1"
+        if kind == "gene":
+            a = S.new(TRANSCRIPT, [2], [8], plus, transcript_id="m1")
+            b = S.new(TRANSCRIPT, [2], [e2], plus, transcript_id=id2)
+        else:
+            a = S.new(FEATURE, [2], [8], plus, feature_id="m1")
+            b = S.new(FEATURE, [2], [e2], plus, feature_id=id2)
+        return NS(kind=kind, differ=differ, a=a, b=b, GeneInterval=S.cls(GENE), FeatureIntervalCollection=S.cls(FCOL))
+
+    def ground(self):
+        for kind in ("gene", "fc"):
+            for differ in ("nothing", "id", "coordinates"):
+                yield dict(kind=kind, differ=differ)
+
+
 class AnnotationCollectionBounds(Case):
     props = ("C19",)
     name = "AnnotationCollection.__init__[start/end pairing]"
@@ -620,7 +652,7 @@ class OpenEndedSlice(Case):
 
 
 CASES = [OpenEndedSlice(), TranscriptCdsBounds(), TranscriptCdsArgs(), CdsInitShape("FF"), CdsInitShape("PP"), CdsInitShape("FP"),
-         CdsInitShape("F"), CdsInitShape("FFF"), VariantInit(), EmptyCollections(), AnnotationCollectionBounds(),
+         CdsInitShape("F"), CdsInitShape("FFF"), VariantInit(), EmptyCollections(), DuplicateChildren(), AnnotationCollectionBounds(),
          InitializeLocation(), SequenceInit(), ParentConsistency(), FromSingleIntervals(),
          CompoundOnSequence("shift_position"), CompoundOnSequence("__init__"), ParentExplicitParent(), ReparentMismatch(), ParentEqualsExceptLocation(), VariantCollectionOverlap(),
          *[ChunkParentGuards(v, k) for v in ("constructor", "static helper") for k in ChunkParentGuards.KINDS]]
